@@ -1,4 +1,206 @@
 package main
 
-// Canaries are implemented later in this file (thorough tier).
-func runCanaries(c *Ctx, repo, verif string, seed int, extra map[string]any) {}
+// Thorough-tier self-validation: seeded faults (canaries). Each canary is a
+// small search/replace edit applied to a scratch copy of the CURRENT /repo in
+// a fresh temporary directory (outside /repo and /verif, removed at once).
+// The mutated copy must still load and type-check, and the named rule must
+// report a violation. Canaries never change the verdict on the real tree
+// except to fail the run when a rule has gone blind.
+
+import (
+	"bytes"
+	"fmt"
+	"io/fs"
+	"os"
+	"os/exec"
+	"path/filepath"
+	"regexp"
+	"sort"
+	"strings"
+	"sync"
+)
+
+type Canary struct {
+	Props  []string // properties whose thorough run includes it
+	Name   string
+	File   string // relative to repo root
+	Old    string
+	New    string
+	Rule   string // rule expected to report
+	Substr string // substring expected in the reported construct (may be empty)
+	// Negative control: the edit preserves behaviour; the property's check
+	// must stay silent.
+	Negative bool
+	// Edits lets a canary touch several places.
+	More []Edit
+}
+
+type Edit struct{ File, Old, New string }
+
+type canaryResult struct {
+	Name    string `json:"name"`
+	Rule    string `json:"rule"`
+	Outcome string `json:"outcome"` // fired | silent(negative ok) | MISSED | skipped | invalid | FALSE-ALARM
+	Detail  string `json:"detail,omitempty"`
+}
+
+func copyTree(src, dst string) error {
+	return filepath.WalkDir(src, func(path string, d fs.DirEntry, err error) error {
+		if err != nil {
+			return err
+		}
+		rel, _ := filepath.Rel(src, path)
+		if d.IsDir() {
+			if d.Name() == ".git" {
+				return filepath.SkipDir
+			}
+			return os.MkdirAll(filepath.Join(dst, rel), 0o755)
+		}
+		if !d.Type().IsRegular() {
+			return nil
+		}
+		b, err := os.ReadFile(path)
+		if err != nil {
+			return err
+		}
+		return os.WriteFile(filepath.Join(dst, rel), b, 0o644)
+	})
+}
+
+var violLine = regexp.MustCompile(`(?m)^(VIOLATED|UNDECIDED) (\S+) (.*?) at `)
+
+func runOneCanary(cn Canary, prop, repo, verif string) canaryResult {
+	res := canaryResult{Name: cn.Name, Rule: cn.Rule}
+	tmp, err := os.MkdirTemp("", "avrocanary-")
+	if err != nil {
+		res.Outcome, res.Detail = "invalid", err.Error()
+		return res
+	}
+	defer os.RemoveAll(tmp)
+	work := filepath.Join(tmp, "repo")
+	out := filepath.Join(tmp, "out")
+	os.MkdirAll(out, 0o755)
+	if err := copyTree(repo, work); err != nil {
+		res.Outcome, res.Detail = "invalid", err.Error()
+		return res
+	}
+	edits := append([]Edit{{cn.File, cn.Old, cn.New}}, cn.More...)
+	for _, e := range edits {
+		p := filepath.Join(work, e.File)
+		b, err := os.ReadFile(p)
+		if err != nil || !bytes.Contains(b, []byte(e.Old)) {
+			res.Outcome, res.Detail = "skipped", "the fragment to mutate no longer exists in "+e.File
+			return res
+		}
+		b = bytes.Replace(b, []byte(e.Old), []byte(e.New), 1)
+		os.WriteFile(p, b, 0o644)
+	}
+	self, _ := os.Executable()
+	cmd := exec.Command(self, "-repo", work, "-verif", verif, "-out", out, "-property", prop, "-tier", "quick")
+	cmd.Env = append(os.Environ(), "GOFLAGS=-mod=mod")
+	var buf bytes.Buffer
+	cmd.Stdout = &buf
+	cmd.Stderr = &buf
+	runErr := cmd.Run()
+	s := buf.String()
+	if strings.Contains(s, "checker could not load") {
+		res.Outcome, res.Detail = "invalid", "mutated copy does not type-check: "+firstLine(s)
+		return res
+	}
+	fired := false
+	var others []string
+	for _, m := range violLine.FindAllStringSubmatch(s, -1) {
+		if m[2] == cn.Rule && strings.Contains(m[3], cn.Substr) {
+			fired = true
+		} else {
+			others = append(others, m[2]+" "+m[3])
+		}
+	}
+	if cn.Negative {
+		if runErr == nil && !strings.Contains(s, "VIOLATION ") {
+			res.Outcome = "silent (negative control ok)"
+		} else {
+			res.Outcome, res.Detail = "FALSE-ALARM", strings.Join(others, "; ")
+		}
+		return res
+	}
+	if fired {
+		res.Outcome = "fired"
+		if len(others) > 0 {
+			sort.Strings(others)
+			res.Detail = "also: " + strings.Join(others, "; ")
+		}
+		return res
+	}
+	res.Outcome = "MISSED"
+	if len(others) > 0 {
+		res.Detail = "other rules fired: " + strings.Join(others, "; ")
+	} else {
+		res.Detail = "no rule fired"
+	}
+	return res
+}
+
+func firstLine(s string) string {
+	if i := strings.IndexByte(s, '\n'); i >= 0 {
+		return s[:i]
+	}
+	return s
+}
+
+func runCanaries(c *Ctx, repo, verif string, seed int, extra map[string]any) {
+	var mine []Canary
+	for _, cn := range canaries {
+		for _, p := range cn.Props {
+			if p == c.Property {
+				mine = append(mine, cn)
+			}
+		}
+	}
+	if len(mine) == 0 {
+		return
+	}
+	// VERIF_SEED only permutes the order.
+	if seed != 0 {
+		n := len(mine)
+		for i := range mine {
+			j := (i*7 + seed) % n
+			if j < 0 {
+				j += n
+			}
+			mine[i], mine[j] = mine[j], mine[i]
+		}
+	}
+	results := make([]canaryResult, len(mine))
+	sem := make(chan struct{}, 8)
+	var wg sync.WaitGroup
+	for i, cn := range mine {
+		wg.Add(1)
+		go func(i int, cn Canary) {
+			defer wg.Done()
+			sem <- struct{}{}
+			defer func() { <-sem }()
+			results[i] = runOneCanary(cn, c.Property, repo, verif)
+		}(i, cn)
+	}
+	wg.Wait()
+	sort.Slice(results, func(i, j int) bool { return results[i].Name < results[j].Name })
+	c.Rule("CANARY", "self-validation: each seeded fault applied to a scratch copy of the current tree is reported by the rule that should see it; behaviour-preserving edits stay silent", 0)
+	nf := 0
+	for _, r := range results {
+		key := "canary/" + r.Name
+		switch {
+		case r.Outcome == "fired" || strings.HasPrefix(r.Outcome, "silent"):
+			nf++
+			c.OK(key, "-", fmt.Sprintf("%s: %s %s", r.Rule, r.Outcome, r.Detail))
+		case r.Outcome == "skipped" || r.Outcome == "invalid":
+			o := c.ob(Discharged, key, "-", fmt.Sprintf("%s: %s (%s)", r.Rule, r.Outcome, r.Detail), false)
+			o.Info = true
+		default:
+			c.Unk(key, "-", fmt.Sprintf("rule %s has gone blind or noisy on its canary: %s %s", r.Rule, r.Outcome, r.Detail))
+		}
+	}
+	extra["canaries"] = results
+	extra["canaries_fired"] = nf
+	fmt.Printf("canaries: %d run, %d as expected\n", len(results), nf)
+}
